@@ -169,11 +169,12 @@ class Formatter(FormatterInterface):
 
     def _format_number(self, x):
         """Format a number."""
-        # Use 16sf for precision (good for float64 or less)
+        # Shortest representation that reads back to exactly the same float64
+        # (16 significant digits can be several ulp off)
         if isinstance(x, complex):
-            return f"({x.real:.16}+I*{x.imag:.16})"
+            return f"({float(x.real)!r}+I*{float(x.imag)!r})"
         elif isinstance(x, float):
-            return f"{x:.16}"
+            return repr(float(x))
         return str(x)
 
     def _build_initializer_lists(self, values):
